@@ -24,6 +24,7 @@ Definition status_str {A} (v : vres A) : str :=
   | VValueError => Str "ValueError"
   | VUnreadable => Str "unreadable"
   | VUnmodelled => Str "unmodelled"
+  | VTypeError => Str "TypeError"
   end.
 
 Definition nl1 : str := [ascii_of_nat 10].
